@@ -8,7 +8,11 @@ def run(ctx, res):
     res.rules_run += ["C02.str (decoded characters: escape table, \\uXXXX accumulation, surrogate pair formula, raw characters)",
                       "C02.num (number buffer receives exactly the consumed characters)",
                       "C02.struct (each completed value / entry appended once, at the end, to the innermost open container; literals)"]
-    prod = parsercheck.apply(ctx, res, ["C02.", "E2."], strict_only=True)
+    # all four option valuations: a strict-valid document has the same content whatever the options are; what a document that
+    # is only leniently accepted decodes to (U+FFFD for the relaxed escapes) is C12's clause
+    from .C12 import unpaired_surrogate_escape
+    prod = parsercheck.apply(ctx, res, ["C02.", "E2."], strict_only=False,
+                             finding_filter=lambda f, strict: None if strict or not unpaired_surrogate_escape(f.get("witness")) else "a document accepted only leniently: C12's clause")
     strict = prod["runs"][0]
     res.count("hex4_expressions_compared", strict["stats"].get("hex4_checked", 0))
     res.count("expression_comparisons", strict["stats"].get("pair_checked", 0))
